@@ -232,6 +232,7 @@ Definition run_acc (line : list N) : list N :=
       else if str_eqb f $"printhist" then run_hist hist_print a
       else if str_eqb f $"parsehist" then run_hist hist_parse a
       else if str_eqb f $"deepparse" then match parse_decN a with Some n => run_deep n | None => r_badcase end
+      else if str_eqb f $"stmt" then match dec_stmt a with Some st => r_ok (print_bytes (print_script [st])) | None => r_badcase end
       else if str_eqb f $"expr" then match dec_expr a with Some e => r_ok (print_bytes (pr_expr e)) | None => r_badcase end
       else r_badcase
   | [f; a; b] =>
